@@ -243,7 +243,13 @@ func genCase(t *rapid.T) Case {
 		// one-token corruptions
 		q := append([]string(nil), p...)
 		pos := g.Pick(len(q), "corrupt")
-		switch g.Pick(10, "how") {
+		switch g.Pick(12, "how") {
+		case 10:
+			// a further token made of white space only: a token like any other (after a leaf value, after a leaf of type
+			// empty, as a key or a child name)
+			q = append(q, []string{" ", "\t", "\n", "  ", "\u00a0"}[g.Pick(5, "blanktok")])
+		case 11:
+			q[pos] = []string{" ", "\t", "\n", "  "}[g.Pick(4, "blankval")]
 		case 5:
 			// the token repeated (a doubled name, a repeated key or value)
 			q = append(q[:pos+1], append([]string{q[pos]}, q[pos+1:]...)...)
